@@ -236,7 +236,6 @@ Definition vlog_id (off : N) : N := (off / 2 ^ 56) mod 256.
 Definition vlog_off (off : N) : N := off mod 2 ^ 55.
 Definition off_negative (off : N) : bool := 2 ^ 63 <=? off mod 2 ^ 64.
 
-(* vLog.ReadAt(b, offset) with len(b) = n > 0: short read = io.EOF *)
 (* vLog.ReadAt(b, offset) with len(b) = n > 0 as readValueAt uses it since commit 6fe0104: a read that
    starts at or runs past the END of the value log is ErrCorruptedData, not io.EOF (io.EOF is kept
    for data inside the log whose chunk was discarded; the logs of this model are whole byte strings,
